@@ -256,6 +256,11 @@ class Harness:
         self.notes = []             # harness-level anomalies (tie problems, not property failures)
         self.wr_broken = False
         self.congested = False
+        self.vtime = 1000.0
+        self.poisoned = False
+        self.fail_bodies = [pickle.dumps(v) for v in fail_values]
+        self.candidates = []        # (caller index, body): answers fed whole on a healthy connection
+        self.unsent_blocked = []    # callers blocked although their request was never written
         self.creating_for = None
         self.task_owner = {}        # asyncio task of a call's coroutine -> Caller
         self.extra_writes = 0
@@ -315,6 +320,11 @@ class Harness:
         h = self
 
         class HookLoop(asyncio.SelectorEventLoop):
+            def time(self):
+                # virtual clock: moves only through `ADV` schedule items, so timers of the code
+                # under test (poll intervals, timeouts) fire exactly when a schedule says so
+                return h.vtime
+
             def create_future(self):
                 c = getattr(h.tls, "caller", None)
                 if c is not None and "B" not in c.seen:
@@ -415,7 +425,11 @@ class Harness:
                 signal.signal(signal.SIGALRM, old)
 
     def loop_idle(self):
-        return not self.loop._ready and not self.loop._scheduled
+        """nothing ready and no timer due at the current virtual time"""
+        if self.loop._ready:
+            return False
+        now = self.vtime
+        return not any((not t._cancelled) and t._when <= now for t in self.loop._scheduled)
 
     # ------------------------------------------------------------------ gates (caller threads)
     def gate(self, name):
@@ -675,9 +689,37 @@ class Harness:
             self.reader.feed_data(chunk)
             self.fed = b
             for fid, body, s, e in self.frames:
+                if a < e <= b and (body == self.close_body or body in self.fail_bodies):
+                    # a close ack / close request / failing push ends the connection by protocol:
+                    # frames behind it need not be dispatched
+                    self.poisoned = True
                 if a < e <= b and fid < len(self.callers):
-                    self.callers[fid].answers.append(body)
+                    c = self.callers[fid]
+                    c.answers.append(body)
+                    if not self.fault and not self.poisoned and c.hphase == "waiting" and c.must_ok is None and \
+                            dict.__contains__(self.nc.pending_responses, _uuid.UUID(int=fid)) and \
+                            not any(k == fid for k, _ in self.candidates):
+                        self.candidates.append((fid, body))
             self.labels.append(("feed b=" + chunk.hex()) if len(chunk) <= 256 else ("feed r=" + rle(chunk)))
+            return True
+        if op == "ADV":                 # virtual time passes (no label: the machine has no clock)
+            self.vtime += float(item[1])
+            return True
+        if op == "PEER":
+            # an honest sequential peer: it sends the next frame of the stream only after it has
+            # seen the request that frame answers on the wire
+            if nested:
+                return False
+            for _ in range(len(self.frames) + 1):
+                self.run_idle()
+                nxt = [fr for fr in self.frames if fr[2] == self.fed]
+                if not nxt or self.reader._eof:
+                    break
+                fid, _, s, e = nxt[0]
+                if fid < len(self.callers) and not self.request_on_wire(fid):
+                    break
+                self.apply(["F", s, e])
+            self.run_idle()
             return True
         if op == "EOF":
             self.fault = True
@@ -745,6 +787,11 @@ class Harness:
         if self.congested or self.writer.waiters:
             self.apply(["UNCONGEST"])
             self._complete()
+        if self.listener_state() == "listening" and not self.wr_broken and self.loop_idle():
+            # healthy connection, nothing left to run: a caller blocked in result() whose request
+            # was never handed to the writer can never be answered
+            self.unsent_blocked = [c.k for c in self.callers
+                                   if c.submitted and not c.finished and c.hphase == "submitted"]
         if self.listener_state() == "listening" and \
                 any(c.thread is not None and not c.finished for c in self.callers):
             self.apply(["EOF"])
@@ -841,6 +888,11 @@ class Harness:
             pos += 20 + n
         return out, len(b) - pos
 
+    def request_on_wire(self, fid):
+        c = self.callers[fid]
+        want = self.close_body if c.kind not in CALL_KINDS else pickle.dumps(self.request_of(c))
+        return any(f == fid and body == want for f, body in self.wire_frames()[0])
+
     def wire_problems(self):
         """the wire must parse as exactly the frames that were sent: every parsed frame with a
         caller's id is that caller's whole request (or a listener reply), at most once, nothing
@@ -897,6 +949,13 @@ class Harness:
 
     def checkpoint(self):
         if self.loop_idle() and not self.recv_pending and not self.writer.waiters:
+            if not self.fault:
+                # the connection is healthy and the listener has nothing left to do: every answer
+                # that was fed whole while its call was waiting must be returned by that call
+                for fid, body in self.candidates:
+                    if self.callers[fid].must_ok is None:
+                        self.callers[fid].must_ok = bytes(body)
+                self.candidates = []
             self.checkpoints.append((len(self.labels), self.digest()))
 
     # ------------------------------------------------------------------ teardown
